@@ -1035,6 +1035,13 @@ func llmnrHandler() llmnr.Handler {
 		if _, err := fmt.Sscanf(name, "host%02d-%04d.example", &c, &i); err != nil {
 			return true
 		}
+		if i%2 == 1 {
+			// answer in place: the handler owns the message it was handed
+			m.SetResponse()
+			m.AddAnswerClassINTypeA(name, llIP(c, i))
+			w.WriteMessage(m)
+			return false
+		}
 		resp := llmnr.CreateResponseFromMessage(m)
 		resp.AddAnswerClassINTypeA(name, llIP(c, i))
 		w.WriteMessage(resp)
@@ -1856,6 +1863,7 @@ func child() {
 		nbMultiQuestion(kind)
 	}
 	nbStreamSizes()
+	nbRedirects()
 	runs := pick(2, 12)
 	for _, kind := range []string{"Server", "UDPServer"} {
 		for _, nc := range []int{2, 4, 8, 16} {
